@@ -46,6 +46,8 @@ type Solver struct {
 	buf        strings.Builder
 	kind       string
 	dead       bool
+	winT       time.Duration
+	winN       int
 	slow       int
 	stack      [][]*Term // assertions per level (level 0 first)
 	OneShots   int
@@ -291,6 +293,14 @@ func (s *Solver) Check(m *Model) SatResult {
 	}
 	s.SolverTime += time.Since(t0)
 	s.Queries++
+	if debugLatency {
+		s.winT += time.Since(t0)
+		s.winN++
+		if s.winN == 2000 {
+			fmt.Fprintf(os.Stderr, "solver latency: %d queries so far, last 2000 avg %.1f ms, %d terms defined\n", s.Queries, float64(s.winT.Milliseconds())/2000, len(s.ts.all))
+			s.winT, s.winN = 0, 0
+		}
+	}
 	switch res {
 	case Sat:
 		s.NSat++
@@ -479,6 +489,8 @@ func parseLit(s string) uint64 {
 	}
 	panic(engineError{"cannot parse model literal " + s})
 }
+
+var debugLatency = os.Getenv("VERIF_LATENCY") != ""
 
 type engineError struct{ msg string }
 
